@@ -1180,6 +1180,52 @@ def models_case(doc: dict, lay: tuple) -> dict | None:
         g.cleanup()
 
 
+# ---------------------------------------------------------------- histories: several clients around one shared core
+def _err_doc(title: str, code: str) -> dict:
+    return pipeline.base_spec(title=title, paths={"/things/{thing_id}": {"get": {
+        "operationId": "getThing", "tags": ["things"],
+        "parameters": [{"name": "thing_id", "in": "path", "required": True, "schema": {"type": "string"}}],
+        "responses": {"200": {"description": "ok", "content": J({"type": "object", "additionalProperties": True})},
+                      code: {"description": "error"}}}}})
+
+
+HISTORIES = [
+    # (core package, [(client package, error code, force)])
+    ("suite.core", [("suite.alpha", "404", True), ("suite.beta", "409", True), ("suite.alpha", "404", True)]),
+    ("suite.core", [("suite.alpha", "404", True), ("suite.beta", "409", True), ("suite.gamma", "422", True),
+                    ("suite.beta", "409", True), ("suite.alpha", "404", False)]),
+    ("core", [("alpha", "404", True), ("beta", "503", True), ("alpha", "404", True), ("beta", "503", False)]),
+]
+
+
+def run_history(core: str, steps: list[tuple[str, str, bool]]) -> list[dict]:
+    """generate the clients one after another into ONE project; after every step every module of every client
+    generated so far (and of the shared core) must import"""
+    import shutil
+    import tempfile
+    pipeline.SCRATCH.mkdir(parents=True, exist_ok=True)
+    root = Path(tempfile.mkdtemp(prefix="hist_", dir=pipeline.SCRATCH))
+    out, log = [], []
+    try:
+        for pkg, code, force in steps:
+            g = pipeline.generate(_err_doc(pkg, code), package=pkg, core_package=core, force=force, root=root)
+            log.append(f"generate {pkg} ({code}) core={core} force={force} -> {'ok' if g.ok else 'error: ' + str(g.error)[:60]}")
+            mods = []
+            for p in sorted(root.rglob("*.py")):
+                cur, _ = module_name(p.relative_to(root))
+                mods.append(".".join(cur))
+            tops = sorted({m.split(".")[0] for m in mods})
+            r = pipeline.drive(g, IMPORT_EACH, {"modules": mods, "tops": tops, "packages": tops}, timeout=300)
+            bad = ({m: f"{o['cls']}: {o['msg'][:160]}" for m, o in r["result"]["each"].items() if o != "ok"}
+                   if r["ok"] else {"<driver>": r["error"]})
+            bad = {m: v.replace(str(root) + "/", "") for m, v in bad.items()}
+            out.append({"input": {"k": "history", "core": core, "steps": list(log)}, "obs": bad,
+                        "oracle_fail": [f"after [{'; '.join(log)}]: {m}: {v}" for m, v in sorted(bad.items())][:3]})
+    finally:
+        shutil.rmtree(root, ignore_errors=True)
+    return out
+
+
 def main(chk: Check, replay: dict | None = None) -> int:
     if replay is not None:
         i = replay["input"]
@@ -1200,7 +1246,7 @@ def main(chk: Check, replay: dict | None = None) -> int:
     for c in load_corpus("C01"):
         i = c["input"]
         jobs.append((i["doc"], tuple(i["layout"]), i.get("naming"), "corpus"))
-    n_clean = 150 if chk.thorough else 30
+    n_clean = 150 if chk.thorough else 24
     n_cyc = 60 if chk.thorough else 10
     for k in range(n_clean):
         import random as _random
@@ -1298,7 +1344,7 @@ def main(chk: Check, replay: dict | None = None) -> int:
     import random as _random
     mrng = _random.Random(f"models:{chk.seed}")
     mcases = []
-    n_models = 120 if chk.thorough else 24
+    n_models = 120 if chk.thorough else 18
     outside = 0
     for c0 in load_corpus("C01"):      # corpus documents of the models fragment run first
         if c0["input"].get("models_fragment"):
@@ -1337,6 +1383,16 @@ def main(chk: Check, replay: dict | None = None) -> int:
         chk.cov["input_distribution"]["models_skeleton"] = {"cases": len(mcases), "outside_fragment": outside, "acyclic": acyc,
                                                             "cyclic": len(mcases) - acyc}
     chk.cov["evaluations"] += len(mcases)
+    # (4) histories: clients generated one after another around one shared core (incl. regenerating an unchanged
+    #     client, with and without force); every client generated so far must still import after every step
+    hsteps = 0
+    for core, steps in (HISTORIES if chk.thorough else HISTORIES[:2]):
+        for h in run_history(core, steps):
+            hsteps += 1
+            if h["oracle_fail"]:
+                chk.violation(h, h["oracle_fail"][0])
+    chk.cov["input_distribution"]["history_steps_checked"] = hsteps
+    chk.cov["evaluations"] += hsteps
     return chk.finish(
         TRUSTED,
         rule="corpus (finding witnesses) + seeded structured documents (schema DAGs with refs/arrays/maps/enums/allOf/oneOf/"
